@@ -180,6 +180,9 @@ impl SubCheck for Sub {
                     Ok(d) => {
                         let got = duration_fields(&d);
                         chk!(o, fields_eq(&got, &wf), "C06/diff/mismatch", wf, got);
+                        // the difference is an integer count per unit: a zero field is the integer 0, never the float -0
+                        // (the crate's own FiniteF64::negate guards this; `since` is the negated `until`)
+                        chk!(o, !got.iter().any(|v| *v == 0.0 && v.is_sign_negative()), "C06/diff/negative-zero-field", "zero fields are +0", format!("{got:?}"));
                     }
                     Err(e) => {
                         if reported_valid(&want) || e.kind() != ErrorKind::Range {
